@@ -124,6 +124,7 @@ Definition tables_of (T : table) : option hashtab :=
 (* ---- run-time state ------------------------------------------------------ *)
 Inductive event :=
 | Ev (tid idx : Z) (msg : str) (eobj : Z) (eloc : option str) (eport : option (Z * Z))
+     (eleaf : bool)               (* the port has no sub-ports (Port::ports == NULL) *)
 | EvDefault (tid : Z) (msg : str) (eobj : Z) (eloc : option str)
 | EvError.                       (* assoc read out of range / model out of fuel *)
 
@@ -302,8 +303,8 @@ Fixpoint first_number (m : str) : Z :=
 (* the object a parent hands down (the harness's stand-in for &obj->name[idx]) *)
 Definition child_obj (o tid idx n : Z) : Z := o * 131 + tid * 17 + idx * 7 + n + 1.
 
-Definition leaf_event (tid i : Z) (m : str) (st : dstate) : dstate :=
-  add_log st (Ev tid i m (obj st) (loc st) (dport st)).
+Definition leaf_event (tid i : Z) (m : str) (leaf : bool) (st : dstate) : dstate :=
+  add_log st (Ev tid i m (obj st) (loc st) (dport st) leaf).
 
 (* callbacks: a leaf records what it sees; a port with sub-ports records,
    then does what rRecurCb / rRecursCb do *)
@@ -313,7 +314,8 @@ Fixpoint dispatch_f (fuel : nat) (t : tree) (m args : str) (base : bool) (st : d
   | S f =>
       let T := tab_of t in
       let cb := fun (i : Z) (msg : str) (d : dstate) =>
-        let d1 := leaf_event (t_id T) i msg d in
+        let leaf := match nth_error (subs_of t) (Z.to_nat i) with Some (Some _) => false | _ => true end in
+        let d1 := leaf_event (t_id T) i msg leaf d in
         match nth_error (subs_of t) (Z.to_nat i) with
         | Some (Some sub) =>
             let name := match nth_error (t_ports T) (Z.to_nat i) with Some (n, _) => n | None => [] end in
